@@ -40,6 +40,11 @@ func runH1(c *chk.Ctx, bound int, gen func(emit func(*h1.Scenario)), oracle func
 		if stop || !c.Mine(idx) {
 			return
 		}
+		if h1.Blocked {
+			stop = true
+			r.Capped, r.CapNote = true, "a coordination cycle never returned; the remaining scenarios of this worker were skipped"
+			return
+		}
 		if idx%64 == int64(c.Part) && c.TimeUp() {
 			stop = true
 			r.Capped = true
@@ -68,7 +73,7 @@ func runH1(c *chk.Ctx, bound int, gen func(emit func(*h1.Scenario)), oracle func
 			// determinism: replay the choice list 5 times, identical observation required
 			picks := x.Picks()
 			want := chk.JSON(obs)
-			for i := 0; i < 5; i++ {
+			for i := 0; i < 5 && !h1.Blocked; i++ {
 				var o2 *h1.Obs
 				vrt.Replay(picks, func(x *vrt.X) { o2 = h1.Run(sc) })
 				if chk.JSON(o2) != want {
